@@ -146,6 +146,13 @@ def run_given(rec, seed, n, strategies, fn, shrink=True, check_name=""):
         phases.append(Phase.shrink)
 
     last_args = {}
+    shrink_budget = float(os.environ.get("VERIF_SHRINK_S") or (20 if os.environ.get("VERIF_TIER_ACTIVE") == "quick" else 120))
+    try:  # Hypothesis' own cap on the shrink phase is 300 s; bring it down to the same budget (module constant)
+        from hypothesis.internal.conjecture import engine as _engine
+        _engine.MAX_SHRINKING_SECONDS = shrink_budget
+    except Exception:
+        pass
+    fail_state = {"first": None, "failed": set()}
 
     @hypothesis.seed(seed)
     @settings(max_examples=n, database=None, deadline=None, derandomize=False, report_multiple_bugs=False,
@@ -153,11 +160,19 @@ def run_given(rec, seed, n, strategies, fn, shrink=True, check_name=""):
               verbosity=hypothesis.Verbosity.quiet)
     @given(**strategies)
     def test(**kw):
+        # bounded shrinking: once the budget since the first failure is spent, only inputs already known to fail
+        # are re-executed (Hypothesis replays its best failing example last); everything else returns at once
+        if fail_state["first"] is not None and time.time() - fail_state["first"] > shrink_budget \
+                and repr(kw) not in fail_state["failed"]:
+            return
         last_args.clear()
         last_args.update(kw)
         try:
             fn(rec, **kw)
         except Violation:
+            if fail_state["first"] is None:
+                fail_state["first"] = time.time()
+            fail_state["failed"].add(repr(kw))
             raise
         except HarnessError:
             raise
@@ -173,6 +188,9 @@ def run_given(rec, seed, n, strategies, fn, shrink=True, check_name=""):
             if sig in rec.known:
                 rec.fail(sig, msg, kw)
                 return
+            if fail_state["first"] is None:
+                fail_state["first"] = time.time()
+            fail_state["failed"].add(repr(kw))
             raise Violation(sig, msg, dict(kw)) from exc
 
     try:
@@ -219,7 +237,8 @@ def load_known(prop):
 
 
 def write_evidence(prop, tier, seed, wall, merged, rule, assumptions, violations):
-    os.makedirs(os.path.join(VERIF, "evidence"), exist_ok=True)
+    edir = os.environ.get("VERIF_EVIDENCE_DIR") or os.path.join(VERIF, "evidence")
+    os.makedirs(edir, exist_ok=True)
     samples = []
     for label, lst in sorted(merged["samples"].items()):
         for s in lst[:MAX_SAMPLES_PER_LABEL]:
@@ -242,7 +261,7 @@ def write_evidence(prop, tier, seed, wall, merged, rule, assumptions, violations
             "notes": merged["notes"],
         },
     }
-    path = os.path.join(VERIF, "evidence", "%s.json" % prop)
+    path = os.path.join(edir, "%s.json" % prop)
     with open(path + ".tmp", "w") as f:
         json.dump(evidence, f, indent=1, sort_keys=True)
     os.replace(path + ".tmp", path)
@@ -253,6 +272,7 @@ def run_property(prop_module, tier, seed, only=None, jobs=16):
     import importlib
     mod = importlib.import_module(prop_module)
     prop = mod.PROPERTY
+    os.environ["VERIF_TIER_ACTIVE"] = tier
     known_entries = load_known(prop)
     known = [e["signature"] for e in known_entries]
     t0 = time.time()
@@ -316,7 +336,7 @@ def run_property(prop_module, tier, seed, only=None, jobs=16):
         print("KNOWN-FINDING: property=%s %s%s" % (prop, entry.get("what", sig), extra))
     code = 0
     for sig, v in sorted(by_sig.items()):
-        rdir = os.path.join(VERIF, "replays", prop)
+        rdir = os.path.join(os.environ.get("VERIF_REPLAY_DIR") or os.path.join(VERIF, "replays"), prop)
         os.makedirs(rdir, exist_ok=True)
         name = hashlib.blake2b(sig.encode(), digest_size=4).hexdigest()
         path = os.path.join(rdir, "%s_%s.json" % (v["check"], name))
